@@ -3,6 +3,9 @@
 #pragma once
 #include <rapidcheck.h>
 #include "../vrt/shim.hpp"
+#ifdef VRT_EXTRA_MODEL_HEADER        // a family may add further models to namespace vstd before the library is included (lrcow: shared_ptr)
+#include VRT_EXTRA_MODEL_HEADER
+#endif
 #define std vstd
 #include <libguarded/handles.hpp>
 #include <libguarded/guarded.hpp>
